@@ -123,6 +123,40 @@ def build2():
     return g, s
 
 
+def build3():
+    """a ping whose data part is split over two labels: processed as a ping, never remembered in the ping memory"""
+    rng = random.Random(15161518)
+    g = srvlib.HistGen(rng, adversarial=0.0)
+    g.domain = b't.example.com'
+    g.password = b'secret'
+    g.check_ip, g.myip, g.netbits, g.mtu, g.nsip, g.bind, g.now, g.qtype = 1, '10.0.0.1', 27, 1500, None, 0, 1000100, 10
+    g.tun_ips = [0x0a000002 + i for i in range(16)]
+    g.nusers = 16
+    g.events = []
+    g.slot_last = {}
+    s = srvlib.Session(g, (4, bytes([192, 0, 2, 10]), 4000))
+
+    def q(name, qid):
+        g.emit_dgram(s.addr, srvlib.dns_query(qid, 10, name, edns0=True), seed=12345)
+
+    def ping(seq, frag, cmc, qid):
+        q(srvlib.qname(b'p', srvlib.enc(0, bytes([s.uid, (seq << 4) | frag, cmc >> 8, cmc & 255])), g.domain), qid)
+
+    g.version(s)                                                   # 0
+    g.login(s)                                                     # 1
+    e = srvlib.enc(0, bytes([s.uid, 0x00, 0x09, 0x09, 0x07]))      # 8 Base32 chars
+    dotted = b'p' + e[:2] + b'.' + e[2:] + b'.' + g.domain
+    q(dotted, 0x2001)               # 2  processed (dataless answer)
+    q(dotted, 0x2002)               # 3  in the answer cache: same payload
+    ping(0, 0, 0x0301, 0x2003)      # 4..7  four more saves
+    ping(0, 0, 0x0302, 0x2004)
+    ping(0, 0, 0x0303, 0x2005)
+    ping(0, 0, 0x0304, 0x2006)
+    q(dotted, 0x2007)               # 8  out of the cache, never in the ping memory: processed again (answered, saved)
+    ping(0, 0, 0x0301, 0x2008)      # 9  an ordinary ping of the same age is suppressed
+    return g
+
+
 def coq_events(g):
     evs = []
     for ev in g.events:
@@ -238,6 +272,13 @@ def main():
         f.write('# the history of coq/ServerExamples.v (generated by tools/gen_srv_examples.py): fresh pings, re-deliveries\n'
                 '# from the cache / suppressed / after N, a data query re-delivered identically and with flipped case\n')
         f.write(line + '\n')
+    g3 = build3()
+    with open(os.path.join(cp, 'dotted-ping-not-remembered.cases'), 'w') as f:
+        f.write('# caveat of C16 (stated as hypothesis Hfp of C16_redelivered_ping; Example ping_dotted_not_remembered): a ping whose\n'
+                '# data part is split over two labels ("pab.cdefgh.<domain>", never built by the iodine client) is processed as a ping\n'
+                '# but its fingerprint is never saved: the repeat at event 8 (4 saves later) is processed again, while the ordinary\n'
+                '# ping of the same age (event 9) gets the illegal answer.  Generated by tools/gen_srv_examples.py\n')
+        f.write('H ' + g3.cfg() + ' ; ' + ' ; '.join(g3.events) + '\n')
     print(line[:300] + ' ...')
 
 
